@@ -8,7 +8,7 @@ __all__ = [
 ]
 
 _CompNode: typing.TypeAlias = ListComp | SetComp | DictComp | GeneratorExp
-T = typing.TypeVar("T", expr, NamedExpr, Name, _CompNode)
+T = typing.TypeVar("T", expr, NamedExpr, Name, Lambda, _CompNode)
 
 
 class PendingExprGeneric(typing.Generic[T]):
@@ -93,14 +93,53 @@ class PendingName(PendingExprGeneric[Name]):
         return self.nsp.get_load_name(self.node.id)
 
 
-class PendingComp(PendingExprGeneric[_CompNode]):
-    target_names: set[str]
+class PendingScope(PendingExprGeneric[T]):
+    """
+    A lambda or a comprehension: an expression with a scope of its own.
+    """
+
+    bound_names: set[str]  # the names that are bound in the scope
+    active: bool  # whether the expression being transformed belongs to the scope
+
+    def __init__(self, node: T, nsp: Namespace):
+        super().__init__(node)
+        self.nsp = nsp
+        self.bound_names = set()
+        self.active = False
+
+        self.nsp.scope_stack.append(self)
+
+    def get_result(self) -> expr:
+        assert self.nsp.scope_stack[-1] is self
+        self.nsp.scope_stack.pop()
+
+        return super().get_result()
+
+
+class PendingLambda(PendingScope[Lambda]):
+    def __init__(self, node: Lambda, nsp: Namespace):
+        super().__init__(node, nsp)
+
+        args = node.args
+        for arg_node in args.posonlyargs + args.args + args.kwonlyargs:
+            self.bound_names.add(arg_node.arg)
+        if args.vararg is not None:
+            self.bound_names.add(args.vararg.arg)
+        if args.kwarg is not None:
+            self.bound_names.add(args.kwarg.arg)
+
+    def _iter_fields(self):
+        # the default values belong to the enclosing scope
+        self.converted_dict["args"] = yield self.node.args
+        self.active = True
+        self.converted_dict["body"] = yield self.node.body
+
+
+class PendingComp(PendingScope[_CompNode]):
     node: _CompNode
 
     def __init__(self, node: _CompNode, nsp: Namespace):
-        super().__init__(node)
-        self.nsp = nsp
-        self.target_names = set()
+        super().__init__(node, nsp)
 
         for comp in self.node.generators:
             if comp.is_async:
@@ -108,20 +147,34 @@ class PendingComp(PendingExprGeneric[_CompNode]):
                 raise RuntimeError("Unable to convert an asynchronous comprehension")
             self.get_comp_target_names(comp.target)
 
-        self.nsp.comp_stack.append(self)
-
-    def get_result(self) -> expr:
-        assert self.nsp.comp_stack[-1] is self
-        self.nsp.comp_stack.pop()
-
-        return super().get_result()
+    def _iter_fields(self):
+        generators = self.converted_dict["generators"] = []
+        for comp in self.node.generators:
+            # the first iterable belongs to the enclosing scope
+            iter_converted = yield comp.iter
+            self.active = True
+            target_converted = yield comp.target
+            ifs_converted = []
+            for cond in comp.ifs:
+                ifs_converted.append((yield cond))
+            generators.append(
+                comprehension(
+                    target=target_converted,
+                    iter=iter_converted,
+                    ifs=ifs_converted,
+                    is_async=comp.is_async,
+                )
+            )
+        for field_name in self.node._fields:
+            if field_name != "generators":
+                self.converted_dict[field_name] = yield getattr(self.node, field_name)
 
     def get_comp_target_names(self, target):
         """
         Recursion warning
         """
         if isinstance(target, Name):
-            self.target_names.add(target.id)
+            self.bound_names.add(target.id)
         elif isinstance(target, (Tuple, List)):
             for sub_target in target.elts:
                 self.get_comp_target_names(sub_target)
@@ -142,6 +195,8 @@ class ExpressionTransformer:
             return PendingNamedExpr(node, self.nsp)
         elif isinstance(node, Name):
             return PendingName(node, self.nsp)
+        elif isinstance(node, Lambda):
+            return PendingLambda(node, self.nsp)
         elif isinstance(node, (ListComp, SetComp, DictComp, GeneratorExp)):
             return PendingComp(node, self.nsp)
         else:
